@@ -25,6 +25,16 @@ from pyvc.state import Obligation, State  # noqa: E402
 VENV_PY = '/venv/bin/python'
 
 
+# assumptions built into the engine's semantics (every property)
+ENGINE_ASSUMPTIONS = [
+    'A-EXC-ENUM a specification\'s abstract `raises Exception` stands for an exception of none of the classes a handler on the way '
+    'distinguishes; distinguished classes are enumerated in the specifications (an except clause that is dead under them makes the root undecided)',
+    'A-STORED-EXC what set_exception / cancel record is an instance of Exception (never KeyboardInterrupt / SystemExit); its class is otherwise unknown',
+    'A-PY-SUBSET the Python subset and encoding of DESIGN.md section 3.2 (ints mathematical, no async exceptions between statements, '
+    'logging calls dropped, attribute access on typed objects does not raise)',
+]
+
+
 def load_registry():
     R = Registry()
     import contracts
@@ -404,7 +414,7 @@ def run_property(prop, tier, seed):
         'coverage': {
             'obligations': n, 'discharged': disch,
             'checker_cmd': f'./check {prop} --tier {tier}',
-            'trusted_base': sorted(set(getattr(mod, 'TRUSTED', [])) | {f'external:{x}' for x in eng.used_externals}),
+            'trusted_base': sorted(set(getattr(mod, 'TRUSTED', [])) | set(ENGINE_ASSUMPTIONS) | {f'external:{x}' for x in eng.used_externals}),
             'explanation': getattr(mod, 'EXPLANATION', ''),
             'functions_under_contract': stats,
             'functions_out_of_reach': out_of_reach,
@@ -446,7 +456,7 @@ def run_property(prop, tier, seed):
             'samples': samples,
             'repo_sha256': repo.shas(),
         },
-        'assumptions': getattr(mod, 'ASSUMPTIONS', []),
+        'assumptions': list(getattr(mod, 'ASSUMPTIONS', [])) + [a for a in ENGINE_ASSUMPTIONS if a not in getattr(mod, 'ASSUMPTIONS', [])],
         'wall_s': round(time.time() - t0, 3),
         'violations': len(violations) + len(bounded.get('violations', [])),
     }
